@@ -15,6 +15,8 @@ pub(crate) fn parse_uri<R: Read>(scanner: &mut Scanner<R>) -> Result<Uri, Error>
     let mut str = Vec::new();
 
     while scanner.cur != b'`' {
+        #[cfg(feature = "verif-hooks")]
+        crate::haystack::verif_hooks::tick(crate::haystack::verif_hooks::SITE_LOOP);
         if scanner.is_eof {
             return scanner.make_generic_err("Expected '`'");
         }
